@@ -409,7 +409,10 @@ class Exec:
         if not isinstance(obj, ObjV):
             raise Unsupported(f"field read .{name} on {type(obj).__name__}")
         arrs = self.heap_arrays(name, heap)
-        return unflatten(self.field_shape(name), [z3.Select(a, obj.ref) for a in arrs])
+        r = unflatten(self.field_shape(name), [z3.Select(a, obj.ref) for a in arrs])
+        if isinstance(r, SeqV) and name in getattr(self.prop, "ndarray_fields", ()):
+            r.is_ndarray = True  # e.g. Series.values: a numpy array (elementwise comparison with a scalar)
+        return r
 
     def write_field(self, obj, name, value):
         if isinstance(obj, OptV):
@@ -1399,6 +1402,18 @@ class Exec:
             ai, av = (a.isnone, a.val) if isinstance(a, OptV) else (z3.BoolVal(False), a)
             bi, bv = (b.isnone, b.val) if isinstance(b, OptV) else (z3.BoolVal(False), b)
             return z3.Or(z3.And(ai, bi), z3.And(z3.Not(ai), z3.Not(bi), self.equal(av, bv)))
+        if not identity and isinstance(a, SeqV) and getattr(a, "is_ndarray", False) and is_z3(b):
+            # numpy: array == scalar is the elementwise mask (a boolean array of the same length)
+            a = self.materialize(a)
+            (arr,) = V.arrs_of(a)
+            if arr.sort().range() != b.sort():
+                raise Unsupported("ndarray == scalar of another sort")
+            m = z3.Const(V.fresh_name("eqmask"), z3.ArraySort(z3.IntSort(), z3.BoolSort()))
+            k = z3.Const(V.fresh_name("mk"), z3.IntSort())
+            self.assume(V.qforall([k], z3.Select(m, k) == (z3.Select(arr, k) == b), patterns=[z3.Select(m, k)]))
+            r = SeqV(z3.BoolSort(), m, a.n)
+            r.is_ndarray = True
+            return r
         if isinstance(a, StrV) and isinstance(b, StrV):
             return z3.BoolVal(a.s == b.s)
         if isinstance(a, StrV) and is_z3(b) and b.sort() == z3.StringSort():
